@@ -161,6 +161,21 @@ Definition qobj_target_ok (d : document) (o : objmap) : bool :=
 Definition qobj_doc (d : document) : bool :=
   forallb (fun t => qobj_tm t && forallb (fun p => forallb (qobj_target_ok d) (p_objs p)) (t_poms t)) d && nodupb (map t_id d).
 
+(* a rule whose object quotes the (simple) rule b of the table *)
+Definition qobj_ruleb (rules : list rule) (rl : rule) : bool :=
+  mkind_eqb (r_ok rl) KQuoted && (match r_sjoin rl with [] => true | _ => false end) && (match r_ojoin rl with [] => true | _ => false end)
+  && pos_okb (r_sk rl) (r_sv rl) (r_stt rl) && pos_okb (r_pk rl) (r_pv rl) TIri
+  && (match r_ld rl with LDNone => mkind_eqb (r_ldk rl) KNone && ueqb (r_ldv rl) [] | _ => false end)
+  && (if is_plain (r_gk rl) then pos_okb (r_gk rl) (r_gv rl) TIri && (negb (ueqb (r_gv rl) Tables.c_rml_default_graph) || mkind_eqb (r_gk rl) KConst)
+      else mkind_eqb (r_gk rl) KNone && ueqb (r_gv rl) [])
+  && match find_rule rules (r_ov rl) with Some b => simple_ruleb b | None => false end.
+Definition theorem_applies_qobj (d : document) : bool :=
+  qobj_doc d &&
+  match normalise d with
+  | Ok rules => nodupb (map r_id rules) && forallb (fun rl => simple_ruleb rl || qobj_ruleb rules rl) rules
+  | Err _ => false
+  end.
+
 (* the end-to-end theorem of C01 applies to this document and configuration *)
 Definition theorem_applies (nquads : bool) (d : document) : bool :=
   forallb plain_tm d && match normalise d with Ok rules => forallb simple_ruleb rules | Err _ => false end.
